@@ -1,17 +1,36 @@
 (** Genesis round trip (C19): EVM.
     Transcription of x/evm/genesis.go.  ExportGenesis walks the auth module's
-    accounts, keeps the EthAccounts, and for each emits (address, code stored
-    under the account's code hash, all storage entries).  InitGenesis requires
-    every listed address to be an EthAccount of the (already imported) auth
-    state whose code hash matches the code, then SetCode and SetState.
-    The auth accounts [auth : address -> code hash] are an input of both
-    functions (the auth module's own round trip is SDK code, outside this model).
+    accounts, keeps those that implement the interface EthAccountI (the plain
+    EthAccount AND the ClawbackVestingAccount: both carry a code hash; a
+    BaseAccount or ModuleAccount does not), and for each emits (address, code
+    stored under the account's code hash, all storage entries).  InitGenesis
+    requires every listed address to be such an account of the (already
+    imported) auth state whose code hash matches the code, then SetCode and
+    SetState.  The auth accounts [auth : address -> (kind, code hash)] are an
+    input of both functions (the auth module's own round trip is SDK code,
+    outside this model).  The selection of the accounts to export is a
+    parameter [sel] of [evm_export_sel]: the code selects by the interface
+    ([implements_eth]); selecting by the concrete type *EthAccount
+    ([concrete_eth]) is the shape that loses a vesting account's contract.
     Byte strings (code) are interned by the harness: 0 is the empty string;
     Keccak enters as the section variable [hash].  Definitions only. *)
 From Coq Require Import ZArith NArith List Bool.
 From stdpp Require Import gmap.
 From HV Require Import Genesis.Common.
 Import ListNotations.
+
+(** the account types of the auth module, as far as the EVM can tell them apart *)
+Inductive acc_kind := KEth | KClawback | KBase | KModule.
+Global Instance acc_kind_eq_dec : EqDecision acc_kind.
+Proof. solve_decision. Defined.
+(** account.(haqqtypes.EthAccountI): has GetCodeHash / SetCodeHash *)
+Definition implements_eth (k : acc_kind) : bool :=
+  match k with KEth | KClawback => true | KBase | KModule => false end.
+(** account.( *haqqtypes.EthAccount): the concrete type only *)
+Definition concrete_eth (k : acc_kind) : bool :=
+  match k with KEth => true | _ => false end.
+(** an auth account as the EVM sees it: kind and code hash (the empty hash for kinds without one) *)
+Notation auth_acc := (acc_kind * N)%type.
 
 Record evm_acc := mk_ea { ea_addr : N; ea_code : N; ea_storage : list (N * N) }.
 Global Instance evm_acc_eq_dec : EqDecision evm_acc.
@@ -32,16 +51,20 @@ Section Evm.
   Variable valid : N -> bool.      (* Params.Validate *)
   Variable norm : N -> N.          (* SetParams sorts ActivePrecompiles before validating and storing *)
 
-  Definition evm_export (auth : gmap N N) (s : evm_state) : evm_gen :=
+  Definition evm_export_sel (sel : acc_kind -> bool) (auth : gmap N auth_acc) (s : evm_state) : evm_gen :=
     mk_evmg (ev_params s)
-      (map (fun ac => mk_ea ac.1 (default 0%N (ev_codes s !! ac.2)) (export_map (stor s ac.1)))
-           (export_map auth)).
+      (map (fun ac : N * auth_acc => mk_ea ac.1 (default 0%N (ev_codes s !! ac.2.2)) (export_map (stor s ac.1)))
+           (List.filter (fun ac : N * auth_acc => sel ac.2.1) (export_map auth))).
+  (** ExportGenesis as it is: `account.(haqqtypes.EthAccountI)` *)
+  Definition evm_export : gmap N auth_acc -> evm_state -> evm_gen := evm_export_sel implements_eth.
 
   (** the two panics of the account loop *)
-  Definition acc_ok (auth : gmap N N) (acc : evm_acc) : bool :=
+  Definition acc_ok (auth : gmap N auth_acc) (acc : evm_acc) : bool :=
     match auth !! ea_addr acc with
-    | None => false                                   (* "account not found" / not an EthAccount *)
-    | Some ch => (ea_code acc =? 0)%N || (hash (ea_code acc) =? ch)%N   (* code hash mismatch *)
+    | None => false                                   (* "account not found" *)
+    | Some (k, ch) =>
+        implements_eth k                              (* "must be an EthAccount interface" *)
+        && ((ea_code acc =? 0)%N || (hash (ea_code acc) =? ch)%N)   (* code hash mismatch *)
     end.
 
   (** SetCode(keccak(code), code): an empty code deletes the entry *)
@@ -56,7 +79,7 @@ Section Evm.
 
   (** InitGenesis; None = panic.  A panic aborts InitChain, so checking all
       accounts first and writing afterwards is observationally the Go loop. *)
-  Definition evm_init (auth : gmap N N) (g : evm_gen) : option evm_state :=
+  Definition evm_init (auth : gmap N auth_acc) (g : evm_gen) : option evm_state :=
     if negb (valid (norm (vg_params g))) then None else
     if negb (forallb (acc_ok auth) (vg_accounts g)) then None else
     Some (mk_evm (norm (vg_params g))
@@ -65,19 +88,43 @@ Section Evm.
 
   (** operations on (auth accounts, evm state) *)
   Inductive evm_op :=
-  | EvCreate (a code : N)        (* contract creation: EthAccount with the code's hash + SetCode *)
-  | EvNewEOA (a : N)             (* a new externally owned EthAccount (empty code hash) *)
-  | EvSStore (a k v : N)         (* StateDB commit of one dirty slot (zero values are stored too) *)
+  | EvCreate (a code : N)        (* contract creation at a: a new EthAccount, or an account that is already there with
+                                    nonce 0 and the empty code hash -- of ANY kind, the EVM looks at nonce and code hash
+                                    only; SetAccount records the new hash on the kinds that implement EthAccountI *)
+  | EvNewAcc (a : N) (k : acc_kind)  (* a new account with the empty code hash at an unused address: EOA, clawback vesting
+                                    account (MsgCreateClawbackVestingAccount to a fresh address), base / module account *)
+  | EvToVesting (a : N)          (* ConvertIntoVestingAccount of an EthAccount: refused for a contract *)
+  | EvFromVesting (a : N)        (* ConvertVestingAccount: back to an EthAccount, the code hash is kept *)
+  | EvSStore (a k v : N)         (* StateDB commit of one dirty slot (zero values are stored too); SetState checks nothing *)
   | EvDelete (a : N)             (* DeleteAccount: storage cleared, auth account removed, code left behind *)
   | EvSetParams (p : N).
 
-  Definition evm_step (as_ : gmap N N * evm_state) (o : evm_op) : gmap N N * evm_state :=
+  Definition with_code (s : evm_state) (code : N) : evm_state :=
+    mk_evm (ev_params s) (<[hash code := code]> (ev_codes s)) (ev_storage s).
+
+  Definition evm_step (as_ : gmap N auth_acc * evm_state) (o : evm_op) : gmap N auth_acc * evm_state :=
     let '(auth, s) := as_ in
     match o with
     | EvCreate a code =>
         if (code =? 0)%N then as_ else
-        (<[a := hash code]> auth, mk_evm (ev_params s) (<[hash code := code]> (ev_codes s)) (ev_storage s))
-    | EvNewEOA a => if decide (is_Some (auth !! a)) then as_ else (<[a := hash 0%N]> auth, s)
+        match auth !! a with
+        | None => (<[a := (KEth, hash code)]> auth, with_code s code)
+        | Some (k, ch) =>
+            if negb (ch =? hash 0%N)%N then as_                       (* ErrContractAddressCollision *)
+            else if implements_eth k then (<[a := (k, hash code)]> auth, with_code s code)
+            else (auth, with_code s code)     (* SetCode stores the code; SetAccount has no code hash field to write *)
+        end
+    | EvNewAcc a k => if decide (is_Some (auth !! a)) then as_ else (<[a := (k, hash 0%N)]> auth, s)
+    | EvToVesting a =>
+        match auth !! a with
+        | Some (KEth, ch) => if (ch =? hash 0%N)%N then (<[a := (KClawback, ch)]> auth, s) else as_
+        | _ => as_
+        end
+    | EvFromVesting a =>
+        match auth !! a with
+        | Some (KClawback, ch) => (<[a := (KEth, ch)]> auth, s)
+        | _ => as_
+        end
     | EvSStore a k v =>
         if decide (is_Some (auth !! a))
         then (auth, mk_evm (ev_params s) (ev_codes s) (set_state a (ev_storage s) (k, v)))
@@ -87,12 +134,19 @@ Section Evm.
         if valid (norm p) then (auth, mk_evm (norm p) (ev_codes s) (ev_storage s)) else as_
     end.
 
+  (** GetCode of an address: through the code hash of an account that has one *)
+  Definition code_at (auth : gmap N auth_acc) (s : evm_state) (a : N) : N :=
+    match auth !! a with
+    | Some (k, ch) => if implements_eth k then default 0%N (ev_codes s !! ch) else 0%N
+    | None => 0%N
+    end.
+
   Inductive evm_query := EvQParams | EvQCode (a : N) | EvQStorage (a k : N) | EvQAccountStorage (a : N).
   Inductive evm_answer := EvAN (n : N) | EvAO (o : option N) | EvAL (l : list (N * N)).
-  Definition evm_ask (auth : gmap N N) (q : evm_query) (s : evm_state) : evm_answer :=
+  Definition evm_ask (auth : gmap N auth_acc) (q : evm_query) (s : evm_state) : evm_answer :=
     match q with
     | EvQParams => EvAN (ev_params s)
-    | EvQCode a => EvAN (match auth !! a with Some ch => default 0%N (ev_codes s !! ch) | None => 0%N end)
+    | EvQCode a => EvAN (code_at auth s a)
     | EvQStorage a k => EvAO (stor s a !! k)
     | EvQAccountStorage a => EvAL (export_map (stor s a))
     end.
